@@ -144,7 +144,7 @@ def harness_for(cfg):
                 return ("ok",) + tuple(f(m))
             except (ValueError, TypeError):
                 return ("raise",)
-            except AssertionError:
+            except Exception:
                 return ("internal-error",)
 
         def same_outcome(a, b):
@@ -255,11 +255,9 @@ def harness_for(cfg):
                     E.prove(ratio == exp_ratio, "window ratio")
                     need = (1 << kd["waw"]) // exp_ratio
                     eff = max(al, kd["waw"]) if exp_ratio == 1 else None
-            except AssertionError:
-                E.observe("internal-error")
-                E.prove(False, "an add call fails with an internal assertion instead of being accepted or refused")
-                return
-            except (ValueError, TypeError):
+            except (ValueError, TypeError) as refusal:
+                if type(refusal) not in (ValueError, TypeError):
+                    raise
                 E.observe("raise")
                 same(before, snapshot(), "query results")
                 E.prove(align(mm, 0) == cur_before, "failed call moved the placement cursor")
@@ -272,6 +270,12 @@ def harness_for(cfg):
                         # (a window map that is too small for one aligned resource refuses it for lack of space: fine)
                         E.prove("frozen" not in str(e_), "a refused add_window() left the offered map frozen")
                 continue
+            except Exception:
+                # anything else (AssertionError, OverflowError, IndexError, ...) is an internal error of the library:
+                # a call is either accepted or refused with ValueError / TypeError
+                E.observe("internal-error")
+                E.prove(False, "an add call fails with an internal error instead of being accepted or refused")
+                return
             E.observe("ok", start, end)
             got = ("ok", start, end) + ((ratio,) if kd["k"] == "win" else ())
             E.prove(same_outcome(ref_out, got), "earlier refused calls changed the outcome of a later call")
